@@ -194,7 +194,14 @@ static void completer()
     int guard = 0;
     while (!(g_completer_stop && g_fired >= g_npending) && ++guard < 4000)
     {
-        if (g_fired < g_npending) { pmc_point("before-fire"); Pending p = g_pending[g_fired]; ++g_fired; p.fire(p.op); guard = 0; }
+        if (g_fired < g_npending)
+        {
+            Pending p = g_pending[g_fired];    // claimed before the scheduling point: several completer threads may run
+            ++g_fired;
+            pmc_point("before-fire");
+            p.fire(p.op);
+            guard = 0;
+        }
         else sched_yield();
     }
 }
@@ -344,11 +351,14 @@ static void p_let()
 static void p_when_all()
 {
     int cha = pmc_choose(3, 0), defa = pmc_choose(2, 0), chb = pmc_choose(3, 0), defb = pmc_choose(2, 0);
+    int two = (defa && defb) ? pmc_choose(2, 0) : 0;    // two deferred leaves: completed by one thread in turn or by two threads concurrently
     Frame fr;
     Outcome o;
-    std::thread c(completer);
+    std::thread c(completer), c2;
+    if (two) c2 = std::thread(completer);
     consume(ex::when_all(leaf(cha, defa, 1), leaf(chb, defb, 2)), o);
     stop_completer(c);
+    if (two) c2.join();
     PMC_ASSERT(o.total() == 1, "completion-count", "when_all: %d completion signals", o.total());
     if (cha == VAL && chb == VAL) { expect(o, VAL, 1, "when_all(a, b)"); PMC_ASSERT(o.tag2 == 2, "wrong-payload", "when_all: second value has tag %d", o.tag2); }
     else
